@@ -1,4 +1,4 @@
-CONSTANTS Req = {"r1", "r2"} Backend = {"b1", "b2"} SharedResponseKey = FALSE ShortRetention = TRUE
+CONSTANTS Req = {"r1", "r2"} Backend = {"b1", "b2"} SharedResponseKey = FALSE ShortRetention = TRUE ResponseStartTimeUnset = FALSE
 CONSTANT BackendOf <- MCBackendOf
 SPECIFICATION Spec
 CHECK_DEADLOCK FALSE
